@@ -197,6 +197,17 @@ func (v *env) one(k kase) {
 			e.Rep.Violate("gc-error", "first garbage collection failed: "+gerr.Error(), k)
 			return
 		}
+		nd := len(h.Done)
+		h.OrphanToNewGen()
+		for _, d := range h.Done[nd:] {
+			e.Rep.Hit("scenario:" + d)
+		}
+		for sc, why := range h.Skipped {
+			if strings.HasPrefix(sc, "orphan:") {
+				e.Rep.Hit("scenario-skipped:" + sc)
+				e.Rep.Note(fmt.Sprintf("seed %d: scenario %s skipped: %.200s", k.Seed, sc, why))
+			}
+		}
 		for _, q := range []string{
 			"UPDATE t1 SET v = 'round2' WHERE id % 5 = 1",
 			"CALL dolt_commit('-am', 'round 2')",
